@@ -141,7 +141,7 @@ fn forward_nest(&self, x: &Vec<Vec<Vec<f32>>>, ih: usize, iw: usize, oc: usize, 
                                         fgt_irrefl(value);
                                     }
     //@end
-    //@before /let h = h \/ self\.stride\.0;/
+    //@before /let h = h \//
                     let ghost h0 = h; let ghost w0 = w; let ghost b0 = gb;
                     proof {
                         assert((ga * self.stride.0) / (self.stride.0 as int) == ga) by (nonlinear_arith) requires self.stride.0 >= 1;
